@@ -202,7 +202,7 @@ func genC18(r *mon.Rng, maxStr int) *c18Prog {
 // C18 — mini CP/M console.
 func runC18(c *Ctx) {
 	mon.DiscardStdLog()
-	nprog := c.Pick(5000, 100000)
+	nprog := c.Pick(5000, 600000)
 	var mu sync.Mutex
 	var evals, consoleBytes, calls, fn9, fn2, warnsSeen, unsupported, pageCross, secondRounds, flakyRuns, loadedByFile int64
 	distinct := mon.NewDistinct(1_000_000)
@@ -476,7 +476,7 @@ func runC18(c *Ctx) {
 		c.R.Set("cmd_zexdoc_binary_skipped", why)
 		c.R.Assume("the built cmd/zexdoc binary was not exercised: " + why)
 	} else {
-		nb := c.Pick(100, 1000)
+		nb := c.Pick(100, 3000)
 		var slow atomic.Int64
 		defer func() {
 			if n := slow.Load(); n > 0 {
